@@ -18,7 +18,7 @@ Session level (Model/PeerSession.lean):
   peer xreq <cid> <method> <sid|-> <udp|tcp> <rec 0|1> <media> <cport> <now>
                                                          → <status> <dump>
   peer xclose <cid>                                      → <dump>
-  peer xdgram <rtp|rtcp> <ip> <port>                     → to <sid> <media> | drop
+  peer xdgram <rtp|rtcp> <ip> <port> <zone|->            → to <sid> <media> | drop
   dump = `conns <cid>@<sid|->,… sess <sid>:<state>:<proto|->:<nmedias>,…`
 IPs are hex byte strings (`-` = nil), ports and times are decimal Go ints.
 -/
@@ -122,7 +122,7 @@ def sessOps (sv : IO.Ref Server) (args : List String) : IO (Option String) := do
     match cid.toNat? with
     | some c => let s := (← sv.get).closeConn c; sv.set s; return some (dump s)
     | none => return some "bad-op"
-  | ["xdgram", ch, ip, port] =>
+  | ["xdgram", ch, ip, port, _zone] =>   -- the listeners ignore the zone of the source
     match unhex ip, port.toInt? with
     | some i, some p =>
       match (← sv.get).datagram (ch == "rtcp") i p with
